@@ -44,7 +44,12 @@ type Plugin struct {
 	H      *Handlers
 	Closed atomic.Int32
 	probes atomic.Int32
+	// ProbeSeq is the global sequence number of the last probe this plugin saw: the order in which the adaptation
+	// invoked the plugins for that probe (needed where two plugins carry the same index and name)
+	ProbeSeq atomic.Int64
 }
+
+var probeSeq atomic.Int64
 
 func (p *Plugin) FullName() string { return p.Idx + "-" + p.Name }
 
@@ -122,6 +127,7 @@ const ProbePod = "verif-probe-pod"
 
 func (p *Plugin) RunPodSandbox(_ context.Context, pod *api.PodSandbox) error {
 	if pod != nil && pod.Id == ProbePod {
+		p.ProbeSeq.Store(probeSeq.Add(1))
 		p.probes.Add(1)
 		return nil
 	}
@@ -147,6 +153,10 @@ type Rig struct {
 }
 
 // New creates and starts an Adaptation listening on a socket in a fresh directory.
+// BeforeStart, when set, is called with the adaptation between its creation and its Start (a runtime that takes a
+// plugin-sync block before it opens the socket).
+var BeforeStart func(*adaptation.Adaptation)
+
 func New(opts ...adaptation.Option) (*Rig, error) {
 	dir, err := os.MkdirTemp("", "vrig")
 	if err != nil {
@@ -178,6 +188,9 @@ func New(opts ...adaptation.Option) (*Rig, error) {
 	if err != nil {
 		os.RemoveAll(dir)
 		return nil, err
+	}
+	if BeforeStart != nil {
+		BeforeStart(ad)
 	}
 	if err := ad.Start(); err != nil {
 		os.RemoveAll(dir)
